@@ -215,6 +215,19 @@ fn int_only(name: &str) -> bool {
     matches!(name, "range" | "generate_series")
 }
 
+/// Over-permissive (variadic-any / user-defined) signatures: keep the type vectors the implementation can
+/// possibly evaluate, so that cases are not wasted on clean rejections.
+fn vector_makes_sense(name: &str, tv: &[Ty]) -> bool {
+    match name {
+        "to_timestamp" | "to_timestamp_seconds" | "to_timestamp_millis" | "to_timestamp_micros" | "to_timestamp_nanos" | "to_date" | "to_unixtime" | "to_time" => tv.len() <= 1 || tv.iter().all(|t| t.is_string()),
+        "map" => tv.len() == 2 && tv.iter().all(|t| matches!(t, Ty::List(_) | Ty::LargeList(_) | Ty::FixedList(_, _))),
+        "named_struct" => tv.len() % 2 == 0 && tv.iter().step_by(2).all(|t| *t == Ty::Utf8),
+        "with_metadata" => tv.len() % 2 == 1 && tv.len() >= 3 && tv[1..].iter().all(|t| *t == Ty::Utf8),
+        "arrays_zip" => tv.iter().all(|t| matches!(t, Ty::List(_) | Ty::LargeList(_) | Ty::FixedList(_, _) | Ty::Null)),
+        _ => true,
+    }
+}
+
 fn catalog() -> &'static Vec<FnInfo> {
     static CAT: OnceLock<Vec<FnInfo>> = OnceLock::new();
     CAT.get_or_init(|| {
@@ -275,7 +288,7 @@ fn catalog() -> &'static Vec<FnInfo> {
             let mut seen = std::collections::BTreeSet::new();
             for c in cands {
                 if let Some(tv) = coerce(&udf, &c) {
-                    if int_only(&name) && !tv.iter().all(|t| t.is_int()) {
+                    if (int_only(&name) && !tv.iter().all(|t| t.is_int())) || !vector_makes_sense(&name, &tv) {
                         continue;
                     }
                     if seen.insert(tv.clone()) {
@@ -343,6 +356,8 @@ enum Hint {
     SmallInt,
     /// non-null field / key name
     FieldName,
+    /// hex / base64 text
+    Encoded,
 }
 
 fn hint(name: &str, pos: usize, t: &Ty) -> Hint {
@@ -359,7 +374,7 @@ fn hint(name: &str, pos: usize, t: &Ty) -> Hint {
         ("regexp_count" | "regexp_instr", p) if s && p >= 3 => Hint::RegexFlags,
         ("regexp_count" | "regexp_instr", _) if i => Hint::SmallInt,
         ("encode" | "decode", 1) if s => Hint::Encoding,
-        ("decode", 0) => Hint::NumStr,
+        ("decode", 0) => Hint::Encoded,
         ("digest", 1) if s => Hint::Digest,
         ("to_local_time" | "from_unixtime" | "at_time_zone", _) if s => Hint::Tz,
         ("from_unixtime", 0) => Hint::SmallInt,
@@ -400,6 +415,10 @@ fn hinted_value(h: Hint, t: &Ty) -> Option<BoxedStrategy<V>> {
             }
         }
         Hint::Separator => pick(SEPARATORS),
+        Hint::Encoded => match t {
+            Ty::Utf8 | Ty::LargeUtf8 | Ty::Utf8View => pick(&["ff", "42", "7fffffff", "aGVsbG8=", "YQ==", "", "00", "YWJj", "zz", "a"]),
+            _ => prop::sample::select(vec!["ff", "42", "aGVsbG8=", "YQ==", "", "00", "YWJj"]).prop_map(|s| V::Bin(s.as_bytes().to_vec())).boxed(),
+        },
         Hint::FieldName => pick(&["a", "b", "c", "key", "x y", "A"]),
         Hint::ArrayStr => pick(ARRAY_STRINGS),
         Hint::Count => match t {
@@ -480,6 +499,19 @@ fn case_strategy(tier: Tier) -> BoxedStrategy<Case> {
             (Just(name), Just(types), cols, Just(rows), alt)
         })
         .prop_map(|(func, types, mut cols, rows, alt)| {
+            if matches!(func.as_str(), "cosine_distance" | "inner_product" | "array_add" | "array_subtract" | "array_distance") && cols.len() == 2 {
+                // element-wise functions: per row lists of equal length (3 rows in 4), mostly without NULL elements
+                for r in 0..rows {
+                    if r % 4 == 3 {
+                        continue;
+                    }
+                    if let (V::L(a), V::L(b)) = (cols[0][r].clone(), cols[1][r].clone()) {
+                        let len = a.len().min(b.len());
+                        cols[0][r] = V::L(a[..len].to_vec());
+                        cols[1][r] = V::L(b[..len].to_vec());
+                    }
+                }
+            }
             if func == "map" && cols.len() == 2 {
                 // map(keys, values): per row lists of equal length, keys non-NULL and distinct
                 for r in 0..rows {
@@ -654,7 +686,7 @@ impl Property for C32 {
         case_strategy(tier)
     }
     fn budget(&self, tier: Tier) -> Budget {
-        Budget::new(tier.pick(16_000, 900_000), tier.pick(8, 16)).min_nontrivial(tier.pick(3_000, 150_000)).discard_cap(0.5)
+        Budget::new(tier.pick(12_000, 600_000), tier.pick(8, 16)).min_nontrivial(tier.pick(2_500, 120_000)).discard_cap(0.5)
     }
     fn rule(&self) -> String {
         "function and coerced argument-type vector drawn uniformly from the catalog (all default + nested scalar UDFs minus volatile ones and the deny-list; vectors = fixpoints of the planner coercion); 1-12 rows (thorough 1-24), \
